@@ -392,6 +392,7 @@ def enum_loop_rule(text):
         return text, 0
     e = match_close(text, b)
     return text[:m.start()] + 'p += VF_LOOP_WROTE(p);' + text[e + 1:], 1
+enum_loop_rule.must_fire = True
 def case_frame(name, fn):
     return Unit(
         name, 'C08',
